@@ -6,13 +6,14 @@ before/after its rig).  `run(ctx)` exists only so that `check.py C05x` can exerc
 """
 from __future__ import annotations
 
+import json
 from typing import Any, Dict
 
 from harness.extract import action_templates as x_templ
 from harness.extract import request_core as x_core
 from harness.extract import request_schema as x_schema
 from harness.lib import scen
-from harness.lib.core import Ctx, lean_lock
+from harness.lib.core import VERIF, Ctx, lean_lock
 from harness.rigs import request_schema as rig
 
 MODULES = ["PrimaiteModel.Props.C05Schema"]
@@ -34,6 +35,32 @@ def registry():
     return dict(AbstractAction._registry)
 
 
+DOCUMENTED = {"pending", "success", "failure", "unreachable"}
+
+
+def corpus(ctx: Ctx):
+    """Minimised past failures (corpus/C05x): the action is formed by the real `form_request` and applied with the real
+    handlers on a fresh build of its scenario; it must answer a documented status other than 'unreachable'."""
+    reg = registry()
+    for f in sorted((VERIF / "corpus" / "C05x").glob("*.json")):
+        w = json.loads(f.read_text())
+        sim = scen.make_game(scen.load_cfg(scen.shipped()[w["scenario"]])).simulation
+        for req in w.get("setup", []):
+            sim.apply_request(list(req))
+        req = reg[w["action"]].form_request(reg[w["action"]].ConfigSchema(type=w["action"], **w["opts"]))
+        try:
+            resp = sim.apply_request(list(req))
+            st = getattr(resp, "status", None)
+        except Exception as e:
+            st = "raised " + type(e).__name__
+        ctx.count("corpus")
+        ctx.case({"corpus": f.name}, True)
+        if st not in DOCUMENTED or (w.get("expect_not_unreachable") and st == "unreachable"):
+            ctx.violation({"kind": "action-on-present-components-unreachable", "action": w["action"], "witness": f.name},
+                          f"corpus witness {f.name} ({w['note']}) fails again: status {st!r}",
+                          {"scenario": w["scenario"] + "#0", "action": w["action"], "opts": w["opts"], "req": req, "setup": w.get("setup", [])})
+
+
 def extra(ctx: Ctx):
     """extract both Gen files, prove the new module, run the rig"""
     with lean_lock():
@@ -45,6 +72,7 @@ def extra(ctx: Ctx):
                               "with the regenerated schema; every component of the object graph compared with the dynamic levels; generated "
                               "options for every registered action compared with the regenerated template and with the Lean model's "
                               "present / instantiate / routeVals; distinct by (scenario, state, action, options)")
+    corpus(ctx)
     if not (ok1 and ok2):
         return  # the broken extractor is already recorded as an obligation; the rig needs both tables
     if not proved:
@@ -64,6 +92,8 @@ def replay(rec: dict) -> bool:
     rp = rec["replay"]
     name = rp["scenario"].split("#")[0]
     game = scen.make_game(scen.load_cfg(scen.shipped()[name]))
+    for r in rp.get("setup", []):
+        game.simulation.apply_request(list(r))
     reg = registry()
     req = reg[rp["action"]].form_request(reg[rp["action"]].ConfigSchema(type=rp["action"], **rp["opts"]))
     reach, _ = rig.live_walk(game.simulation._request_manager, req)
